@@ -229,7 +229,7 @@ def _run_sum(case, ctx):
                             shifted.append(build.build_sensor(o2))
                     try:
                         r_s, _ = reference(shifted)
-                        noise = np.maximum(noise, np.abs(r_s - ref))
+                        noise = np.maximum(noise, core.probe_diff(r_s, ref))
                     except _SingleFailed:
                         pass
             with np.errstate(invalid="ignore"):
@@ -330,7 +330,7 @@ def _run_linear(case, ctx):
                 d[:, ax] = sg * mag[:, 0]
                 r = build.call(fn, src, obs + d, squeeze=False)
                 if r.ok:
-                    sp = np.maximum(sp, np.abs(np.asarray(r.value) - base))
+                    sp = np.maximum(sp, core.probe_diff(r.value, base))
         return sp
 
     # cylinder-type routines go through polarization angles and iterative elliptic integrals
